@@ -24,7 +24,7 @@ TIMEOUT = {"quick": 900, "thorough": 7200}
 
 def plan(tier, seed):
     awk = [19, 31, 33, 38] if tier == "quick" else [19, 31, 33, 38, 42, 49, 55, 60]
-    return [{"shard": i, "polar": 1 if tier == "quick" else 8, "cart": 1 if tier == "quick" else 6, "max_nr": 18 if tier == "quick" else 30,
+    return [{"shard": i, "polar": 1 if tier == "quick" else 24, "cart": 1 if tier == "quick" else 30, "max_nr": 18 if tier == "quick" else 30,
              "awkward": [nr for k, nr in enumerate(awk) if k % 16 == i]} for i in range(16)]
 
 
